@@ -176,6 +176,8 @@ var sargs = []sarg{
 	{"int", 7, "7", true, "", false},
 	{"snippet", snippet.Block("S%v@a"), "S%v@a", true, "S%v@a", true},
 	{"reflect.Type", reflect.TypeOf(map[string][]int{}), "", false, "map[string][]int", true},
+	{"empty-block", snippet.Block(""), "", true, "", true},
+	{"empty-template", snippet.T(""), "", true, "", true},
 }
 
 // refSprintf: ok=false means the pairing is outside the alphabet (illegal verb/arg pairing)
@@ -447,7 +449,7 @@ func run(c *core.Ctx) {
 	c.Bound("T_bindings_of_a", bindKinds)
 	c.Bound("Sprintf_alphabet", sAlphabet)
 	c.Bound("Sprintf_max_len", sLen)
-	c.Bound("Sprintf_args", []string{"string", "int", "snippet", "reflect.Type"})
+	c.Bound("Sprintf_args", []string{"string", "int", "snippet", "reflect.Type", "empty-block", "empty-template"})
 	c.Bound("Sprintf_max_args", 2)
 
 	core.Explore(c, core.ExploreOpts{Bound: -1}, func(ch *core.Chooser, _ bool) {
@@ -528,12 +530,13 @@ func replay(c *core.Ctx, raw json.RawMessage) {
 func init() {
 	core.Register(&core.Prop{
 		ID: "C09", Level: "model_checking", Run: run, Replay: replay,
-		Rule: "T: every format string of <=L symbols over a 12-symbol alphabet (name runes, '@', apostrophe, '%', space, newline, punctuation, non-ASCII) x 6 binding kinds of the name a (unbound, nil, empty, literal, nested template, placeholder-looking text); Sprintf: every format <=L over 8 symbols x every argument list <=2 of 4 argument kinds with legal verb pairing; Comment over all line lists <=4 of 5 lines; GoDirective over 3 directives x argument lists <=3; Snippets/Fragments over part lists <=3..4 of 7 part kinds. Non-trivial = the format contains a placeholder/verb introducer (or more than one line/part); states = distinct (construct, panic?, introducer count) classes",
+		Rule: "T: every format string of <=L symbols over a 12-symbol alphabet (name runes, '@', apostrophe, '%', space, newline, punctuation, non-ASCII) x 6 binding kinds of the name a (unbound, nil, empty, literal, nested template, placeholder-looking text); Sprintf: every format <=L over 8 symbols x every argument list <=2 of 6 argument kinds (incl. empty snippets) with legal verb pairing; Comment over all line lists <=4 of 5 lines; GoDirective over 3 directives x argument lists <=3; Snippets/Fragments over part lists <=3..4 of 7 part kinds. Non-trivial = the format contains a placeholder/verb introducer (or more than one line/part); states = distinct (construct, panic?, introducer count) classes",
 		Assumptions: []string{
 			"formats containing BOM/NUL/invalid UTF-8 are outside the alphabet (text/scanner artefacts, statement silent)",
 			"untyped-nil Snippet interface values as arguments are outside the alphabet",
 			"%v of a reflect.Type and %T of an int are caller errors and outside the alphabet",
 			"Comment(\"\") renders nothing (empty text has no lines)",
+			"Sprintf with an ID(nil) snippet argument is outside the alphabet (its Frag panics by design; the statement only defines nil arguments for T)",
 		},
 	})
 }
